@@ -188,6 +188,19 @@ def sweep_items(rng, big):
             b = d[2] + cb + d[3] + str(rb)
             items.append((('range', a, b), host, None))
             items.append((('call', 'F', [('range', a, b)]), host, None))
+    # whole-formula references whose spelling something else might read (float words, function names that are cell labels)
+    for nm in ('inf', 'nan', 'Infinity', 'NaN', 'INF', 'infinity', 'e', 'E', 'None', 'True'):
+        for text in (nm, ' ' + nm + ' ', '(' + nm + ')', nm + '+0'):
+            tree = ('var', nm) if '+' not in text and '(' not in text else (('par', ('var', nm)) if '(' in text else ('add', ('var', nm), ('num', 0)))
+            items.append((tree, dict(vars={nm: 5}, funs={}, cells={}, ranges=[]), text))
+            items.append((tree, dict(vars={}, funs={}, cells={}, ranges=[], varset={nm: [7]}), text))
+    from hotxlfp import formulas as _formulas
+    for fnm in sorted(_formulas.supported()):
+        if refgen.CELL_SHAPED.match(fnm):
+            for lab in (fnm, fnm.lower(), '$' + fnm):
+                host = dict(vars={}, funs={}, cells={(lab.upper()): [rng.choice(POOL)]}, ranges=[])
+                items.append((('cell', lab), host, None))
+                items.append((('add', ('cell', lab), ('num', 1)), dict(vars={}, funs={}, cells={lab.upper(): [4]}, ranges=[]), None))
     n = 3 if big else 2
     for k in range(0, n + 1):
         for script in itertools.product(POOL[:8], repeat=k):
@@ -213,7 +226,7 @@ def explore(ctx):
         tree = g.any(d)
         depths[d] = depths.get(d, 0) + 1
         items.append((tree, host, refgen.render(tree, rng if rng.random() < 0.5 else None)))
-    items += [(t, h, refgen.render(t)) for (t, h, _) in sweep_items(rng, big)]
+    items += [(t, h, f if f is not None else refgen.render(t)) for (t, h, f) in sweep_items(rng, big)]
     cases = [refgen.to_case(t, h, f) for (t, h, f) in items]
     compare(R, ctx, 'parse', cases, interp.enc_case, _impl, key=lambda c: (c['formula'], repr(c['cells']), repr(c['ranges'])), eq=interp.eq_case)
     for (item, vs) in zip(items, pmap(_oracle, items)):
@@ -247,7 +260,7 @@ def search(ctx, proof, res):
         host = rand_host(rng)
         tree = refgen.Gen(rng, host).any(rng.randint(1, 4))
         items.append((tree, host, refgen.render(tree)))
-    items += [(t, h, refgen.render(t)) for (t, h, _) in sweep_items(rng, False)]
+    items += [(t, h, f if f is not None else refgen.render(t)) for (t, h, f) in sweep_items(rng, False)]
     for (item, vs) in zip(items, pmap(_oracle, items)):
         for (w, cls, e, g) in vs:
             R.violate({'tree': item[0], 'host': item[1], 'formula': item[2]}, w, cls, repr(e), repr(g))
